@@ -4,7 +4,7 @@ from . import _blockcheck as bc
 from ..catalog import kinds_with
 
 PROP = 'C07'
-TIERS = {'quick': 9000, 'thorough': 100000}
+TIERS = {'quick': 9000, 'thorough': 700000}
 RULE = ('each run: one arithmetic library block (add +-carry, signed add/sub, sub, neg, abs, sign, sign/zero extend, mul, '
         'signed mul, div, mod, signed div, constant/variable logical/arithmetic shifts, rotates, leading-zero count, '
         'binary-to-BCD) at seeded (mixed) widths 1-70, inside a registered testbench, 12-80 boundary-biased toggling '
